@@ -168,6 +168,23 @@ pub fn answer_parse(u: i64) -> Ans {
                 Err(e) => bad.push(format!("{} text {:?} does not parse as DateTime<Local>: {}", name, text, e)),
             }
         }
+        // serialized forms (serde): Local -> text/bytes -> Local, and the same instant written from
+        // another zone read as Local
+        for (name, r) in [
+            ("serde_json of DateTime<Local>", serde_json::to_string(&dt).map_err(|e| e.to_string()).and_then(|t| serde_json::from_str::<DateTime<Local>>(&t).map_err(|e| format!("{} ({})", e, t)))),
+            ("serde_json of the same instant at another offset", serde_json::to_string(&foreign).map_err(|e| e.to_string()).and_then(|t| serde_json::from_str::<DateTime<Local>>(&t).map_err(|e| format!("{} ({})", e, t)))),
+            ("serde_json of the same instant in UTC", serde_json::to_string(&Utc.from_utc_datetime(&n)).map_err(|e| e.to_string()).and_then(|t| serde_json::from_str::<DateTime<Local>>(&t).map_err(|e| format!("{} ({})", e, t)))),
+            ("bincode of DateTime<Local>", bincode::serialize(&dt).map_err(|e| e.to_string()).and_then(|b| bincode::deserialize::<DateTime<Local>>(&b).map_err(|e| e.to_string()))),
+        ] {
+            match r {
+                Ok(b) => {
+                    if b.naive_utc() != n || b.offset().local_minus_utc() != off {
+                        bad.push(format!("{} reads back as {:?} {:?}, expected {:?} {:?}", name, b.naive_utc(), b.offset(), n, dt.offset()));
+                    }
+                }
+                Err(e) => bad.push(format!("{} does not read back: {}", name, e)),
+            }
+        }
         (off, bad)
     }) {
         Ok((off, bad)) => {
